@@ -13,6 +13,7 @@ import (
 	"runtime/debug"
 	"sort"
 	"strings"
+	"syscall"
 	"time"
 
 	"github.com/aquilax/hranoprovod-cli/v3/verifshim"
@@ -115,7 +116,33 @@ func (w *Worker) appInit() {
 }
 
 // writeFiles makes the worker directory contain exactly the given files (relative names).
-func writeFiles(files map[string]string) {
+// A content starting with symlinkPrefix makes the name a symbolic link to the rest; one starting with fifoPrefix
+// makes it a named pipe into which a helper process writes the rest (once) when somebody opens it for reading.
+const symlinkPrefix = "\x00symlink:"
+const fifoPrefix = "\x00fifo:"
+
+func writeFiles(files map[string]string) (cleanup func()) {
+	var fifos []string
+	defer func() {
+		var feeders []*exec.Cmd
+		for _, name := range fifos {
+			f := exec.Command("/bin/sh", "-c", `exec printf %s "$0" > "$1"`, strings.TrimPrefix(files[name], fifoPrefix), filepath.Join(theApp.dir, name))
+			if err := f.Start(); err != nil {
+				fatalHarness("fifo feeder: %v", err)
+			}
+			feeders = append(feeders, f)
+		}
+		names := fifos
+		cleanup = func() {
+			for _, f := range feeders {
+				f.Process.Kill()
+				f.Wait()
+			}
+			for _, n := range names {
+				os.Remove(filepath.Join(theApp.dir, n))
+			}
+		}
+	}()
 	for name, content := range files {
 		if old, ok := theApp.written[name]; ok && old == content {
 			continue
@@ -123,6 +150,22 @@ func writeFiles(files map[string]string) {
 		p := filepath.Join(theApp.dir, name)
 		if strings.Contains(name, "/") {
 			os.MkdirAll(filepath.Dir(p), 0o755)
+		}
+		os.Remove(p)
+		if strings.HasPrefix(content, symlinkPrefix) {
+			if err := os.Symlink(strings.TrimPrefix(content, symlinkPrefix), p); err != nil {
+				fatalHarness("symlink %s: %v", p, err)
+			}
+			theApp.written[name] = content
+			continue
+		}
+		if strings.HasPrefix(content, fifoPrefix) {
+			if err := syscall.Mkfifo(p, 0o644); err != nil {
+				fatalHarness("mkfifo %s: %v", p, err)
+			}
+			delete(theApp.written, name) // made afresh for every run
+			fifos = append(fifos, name)
+			continue
 		}
 		if err := ioutil.WriteFile(p, []byte(content), 0o644); err != nil {
 			fatalHarness("write %s: %v", p, err)
@@ -135,6 +178,7 @@ func writeFiles(files map[string]string) {
 			delete(theApp.written, name)
 		}
 	}
+	return nil // (replaced by the deferred function)
 }
 
 type appCase struct {
@@ -157,7 +201,14 @@ func (c appCase) shell() string {
 	}
 	sort.Strings(names)
 	for _, n := range names {
-		sb.WriteString(fmt.Sprintf("printf %%s %s > %s; ", shQuote(c.Files[n]), n))
+		switch {
+		case strings.HasPrefix(c.Files[n], symlinkPrefix):
+			sb.WriteString(fmt.Sprintf("ln -s %s %s; ", shQuote(strings.TrimPrefix(c.Files[n], symlinkPrefix)), n))
+		case strings.HasPrefix(c.Files[n], fifoPrefix):
+			sb.WriteString(fmt.Sprintf("mkfifo %s; printf %%s %s > %s & ", n, shQuote(strings.TrimPrefix(c.Files[n], fifoPrefix)), n))
+		default:
+			sb.WriteString(fmt.Sprintf("printf %%s %s > %s; ", shQuote(c.Files[n]), n))
+		}
 	}
 	for k, v := range c.Env {
 		sb.WriteString(fmt.Sprintf("%s=%s ", k, shQuote(v)))
@@ -179,7 +230,7 @@ func runApp(c appCase) (res AppRun) {
 		fatalHarness("runApp before appInit")
 	}
 	defer func() { logRun(c, res) }()
-	writeFiles(c.Files)
+	defer writeFiles(c.Files)()
 	for k, v := range c.Env {
 		os.Setenv(k, v)
 	}
@@ -312,7 +363,7 @@ func (w *Worker) runBin(c appCase, tzName string) BinRun {
 	if w.Bin == "" {
 		fatalHarness("plain binary requested but not built (NeedBin)")
 	}
-	writeFiles(c.Files)
+	defer writeFiles(c.Files)()
 	cmd := exec.Command(w.Bin, c.Args...)
 	cmd.Dir = theApp.dir
 	env := []string{"HOME=" + theApp.dir, "PATH=/usr/bin:/bin"}
